@@ -120,6 +120,10 @@ func (m *recorder) ModifyResponse(res *http.Response) error {
 	r.resCalls++
 	r.resCtx = NewContext(res.Request)
 	r.resRequest = res.Request
+	if r.resCtx == nil {
+		// no context for the response's request: reported by the checks on resCtx below
+		return nil
+	}
 	if v, ok := r.resCtx.Get("verif-mark"); ok && v == r {
 		r.markSeen = true
 	}
